@@ -28,6 +28,18 @@ func (db *DB) newReader(ctx context.Context, ptr pointer) (*Reader, error) {
 	if err != nil {
 		return nil, err
 	}
+	// The caller's pointer is a snapshot that may have been taken before a garbage
+	// collection pass moved the domain inside its file. Now that a handle on the file is
+	// held, garbage collection skips the file, so the offset currently in the index stays
+	// valid for the lifetime of the reader.
+	db.idx.read(func() {
+		if i, ok := db.idx.unprotectedSearch(ptr.Start.SpanRange(0)); ok {
+			if curr := db.idx.mu.pointers[i]; curr.TimeRange == ptr.TimeRange &&
+				curr.fileKey == ptr.fileKey && curr.size == ptr.size {
+				ptr.offset = curr.offset
+			}
+		}
+	})
 	reader := io.NewSectionReaderAtCloser(internal, int64(ptr.offset), int64(ptr.size))
 	return &Reader{ptr: ptr, ReaderAtCloser: reader}, nil
 }
